@@ -320,6 +320,7 @@ package statefulset
 //@   at entry: ghost gPartition = partitionOf(set)
 //@   at call ApplyRevision#1 before: ghost gTmplLo = allocMark()
 //@   at call ApplyRevision#2 after: ghost gTmplHi = allocMark()
+//@   at call newVersionedStatefulSetPod#2 after: assert [C12] censusafternew: forall k int :: {pods[k]} {rdyI[k]} {curI[k]} {updI[k]} 0 <= k && k < len(pods) ==> (rdyI[k] <==> isRunningAndReadyS(pods[k])) && (curI[k] <==> (isCreatedS(pods[k]) && !isTerminatingS(pods[k]) && revOf(pods[k]) == gCurRev)) && (updI[k] <==> (isCreatedS(pods[k]) && !isTerminatingS(pods[k]) && revOf(pods[k]) == gUpdRev))
 //@   at entry: ghost gCurRev = currentRevision.Name; ghost gUpdRev = updateRevision.Name; ghost gMonotonic = set.Spec.PodManagementPolicy != "Parallel"
 //@   at entry: ghost gDeleting = set.DeletionTimestamp != nil; ghost gNact = 0; ghost gActOrd = 0 - 1; ghost gUpdDeletes = 0
 //@   at entry: ghost gCreated = emptyset(); ghost gReplaceDue = emptyset(); ghost gDeleted = emptyset(); ghost gAlloc0 = allocMark()
@@ -915,7 +916,7 @@ package statefulset
 //@   params ssc, set, pods
 //@   lemmas count_bound
 //@   requires ssc != nil && set != nil && ssc.podControl != nil && ssc.recorder != nil && ssc.csAppsV1 != nil && ssc.statusUpdater != nil
-//@   requires set.Spec.Replicas != nil && deref(set.Spec.Replicas) >= 0 && set.Spec.RevisionHistoryLimit != nil && deref(set.Spec.RevisionHistoryLimit) >= 0
+//@   requires set.Spec.Replicas != nil && deref(set.Spec.Replicas) >= 0 && set.Spec.RevisionHistoryLimit != nil && deref(set.Spec.RevisionHistoryLimit) >= 0 && set.Spec.Selector != nil
 //@   requires slotsbound: deref(set.Spec.Replicas) + card(slotsAnn(ifaceOf(set, "*apps.StatefulSet"))) <= MaxInt32
 //@   requires podsbound: len(pods) + deref(set.Spec.Replicas) + card(slotsAnn(ifaceOf(set, "*apps.StatefulSet"))) < MaxInt32
 //@   requires snapalloc: forall k int :: {pods[k]} 0 <= k && k < len(pods) ==> pods[k] != nil && allocated(pods[k])
@@ -933,7 +934,7 @@ package statefulset
 //@ func StatefulSetController.syncStatefulSet
 //@   profiles defaulted, crd
 //@   requires ssc != nil && set != nil && ssc.control != nil
-//@   requires set.Spec.Replicas != nil && deref(set.Spec.Replicas) >= 0 && set.Spec.RevisionHistoryLimit != nil && deref(set.Spec.RevisionHistoryLimit) >= 0
+//@   requires set.Spec.Replicas != nil && deref(set.Spec.Replicas) >= 0 && set.Spec.RevisionHistoryLimit != nil && deref(set.Spec.RevisionHistoryLimit) >= 0 && set.Spec.Selector != nil
 //@   requires slotsbound: deref(set.Spec.Replicas) + card(slotsAnn(ifaceOf(set, "*apps.StatefulSet"))) <= MaxInt32
 //@   requires podsbound: len(pods) + deref(set.Spec.Replicas) + card(slotsAnn(ifaceOf(set, "*apps.StatefulSet"))) < MaxInt32
 //@   requires snapalloc: forall k int :: {pods[k]} 0 <= k && k < len(pods) ==> pods[k] != nil && allocated(pods[k])
@@ -953,7 +954,7 @@ package statefulset
 //@   requires ssc != nil && ssc.setLister != nil && ssc.control != nil && ssc.kubeClient != nil && ssc.pcClient != nil && ssc.podLister != nil && ssc.podControl != nil
 //@   ghost var gSet *apps.StatefulSet = nil
 //@   at call Get#1 after: ghost gSet = result0
-//@   free requires crdvalid: forall ns string, name string :: {listerSet(ns, name)} listerSet(ns, name) != nil ==> listerSet(ns, name).Spec.Replicas != nil && deref(listerSet(ns, name).Spec.Replicas) >= 0 && listerSet(ns, name).Spec.RevisionHistoryLimit != nil && deref(listerSet(ns, name).Spec.RevisionHistoryLimit) >= 0
+//@   free requires crdvalid: forall ns string, name string :: {listerSet(ns, name)} listerSet(ns, name) != nil ==> listerSet(ns, name).Spec.Replicas != nil && deref(listerSet(ns, name).Spec.Replicas) >= 0 && listerSet(ns, name).Spec.RevisionHistoryLimit != nil && deref(listerSet(ns, name).Spec.RevisionHistoryLimit) >= 0 && listerSet(ns, name).Spec.Selector != nil
 //@   free requires sizebound: forall ns string, name string :: {listerSet(ns, name)} listerSet(ns, name) != nil ==> deref(listerSet(ns, name).Spec.Replicas) + card(slotsAnn(ifaceOf(listerSet(ns, name), "*apps.StatefulSet"))) < 1000000000
 //@   profile defaulted free requires defaultedsets: forall ns string, name string :: {listerSet(ns, name)} listerSet(ns, name) != nil ==> (listerSet(ns, name).Spec.UpdateStrategy.Type == "RollingUpdate" || listerSet(ns, name).Spec.UpdateStrategy.Type == "OnDelete") && listerSet(ns, name).Status.ObservedGeneration <= listerSet(ns, name).Generation
 //@   modifies gApiFails, gWrites, gPodTouch, gCtlFails, gStatusWrites, gRevCreates, gRevUpdates, gRevDeleted, gRevDelCount, gAlloc0, gTmplLo, gTmplHi, gNewRev, gRevAdopts, gConfirmed, gPermErr, gAdopts, gReleases, gClaimSrc, gLocalFail
